@@ -156,6 +156,26 @@ def _is_int(v):
     return isinstance(v, int) and not isinstance(v, bool)
 
 
+def _mixed_number_forms(values):
+    """Is there a pair of numbers among the (nested) values that are equal but written differently (2 and 2.0)?  Whether those count as the same value is not specified."""
+    flat = []
+
+    def walk(v):
+        if isinstance(v, bool):
+            return
+        if isinstance(v, (int, float)):
+            flat.append(v)
+        elif isinstance(v, list):
+            for x in v:
+                walk(x)
+        elif isinstance(v, dict):
+            for x in v.values():
+                walk(x)
+    for v in values:
+        walk(v)
+    return any(a == b and type(a) is not type(b) for i, a in enumerate(flat) for b in flat[i + 1:])
+
+
 def json_eq(a, b):
     if isinstance(a, bool) or isinstance(b, bool):
         return isinstance(a, bool) and isinstance(b, bool) and a == b
@@ -242,6 +262,8 @@ def call(name, args):
         need(2)
         if not isinstance(args[0], list):
             raise IntrinsicFailure("array expected")
+        if _mixed_number_forms(list(args[0]) + [args[1]]):
+            raise Unspecified("ArrayContains over numbers that are equal but written differently (2 / 2.0)")
         return any(json_eq(x, args[1]) for x in args[0])
     if name == "States.ArrayRange":
         need(3)
@@ -273,6 +295,8 @@ def call(name, args):
         need(1)
         if not isinstance(args[0], list):
             raise IntrinsicFailure("array expected")
+        if _mixed_number_forms(args[0]):
+            raise Unspecified("ArrayUnique over numbers that are equal but written differently (2 / 2.0)")
         uniq = []
         for x in args[0]:
             if not any(json_eq(x, y) for y in uniq):
